@@ -273,7 +273,7 @@ def checks(rep, pid, tier, want):
                 continue
             K = z.shape[1]
             cots = [("dense", torch.tensor(rng.standard_normal(tuple(z.shape))))]
-            picks = sorted(set(int(k) for k in rng.integers(0, K, size=3 if tier == "quick" else 8)) | {0, K - 1})
+            picks = sorted(set(int(k) for k in rng.integers(0, K, size=2)) | {0, K - 1}) if tier == "quick" else (list(range(K)) if K <= 60 else list(range(0, K, 3)))
             for k in picks:
                 c = torch.zeros(tuple(z.shape))
                 c[:, k] = torch.tensor(rng.standard_normal((z.shape[0],) + tuple(z.shape[2:])))
